@@ -231,9 +231,9 @@ def levels(cx, d, mode, width):
     yield (lambda h: ('try', i, T, True, h, True, L)), cx
     yield (lambda h: ('try', i, T, True, L, True, h)), cx
     ovs = overrides(cx, mode)
-    for ov in (ovs if narrow else ovs[2:3]):
+    for k, ov in enumerate(ovs if narrow else ovs[2:3]):
         yield (lambda h, ov=ov: ('try', i, h, False, ('skip',), True, ov)), cx
-        if wide:
+        if wide or (narrow and k == 0):
             yield (lambda h, ov=ov: ('try', i, h, True, L, True, ('seq', L, ov))), cx
     if wide:
         yield (lambda h: ('try', i, L, True, L, True, h)), cx
@@ -401,6 +401,8 @@ def py_oracle_available():
 Q1 = 'finally-throw-caught-by-own-catch'
 Q2 = 'uncatchable-error-closes-open-iterators'
 Q3 = 'generator-return-then-finally-throws'
+Q4 = 'compiler-panic-dead-code-after-branch-statement'
+Q5 = 'script-completion-value-not-reset'
 PROBE_Q1 = ('try', 1, ('log', 1), True, ('log', 2), True, ('thr', 8))
 PROBE_Q2 = ('forof', 1, 2, None, 'o', ('fatal',))
 
@@ -484,7 +486,7 @@ class Checker:
         self.kc = self.cof = None
         self.n_b = self.n_k = self.n_v = self.n_w = 0
         self.bad = {'B': [], 'K': [], 'V': [], 'W': []}
-        self.known = {Q1: 0, Q2: 0, Q3: 0}
+        self.known = {Q1: 0, Q2: 0, Q3: 0, Q4: 0, Q5: 0}
         self.known_example = {}
         self.compl_hist = {}
         self.mode_hist = {}
@@ -513,34 +515,52 @@ class Checker:
         return g, m
 
     def classify(self, case, g, m):
-        """a goja/refSem disagreement: explained by a known defect?  returns signature or None"""
-        # Q2: return() calls after the fatal event
-        g2 = g
-        sig = None
-        if has(case.prog, 'fatal'):
-            t = trim_after_fatal(g)
-            if t is not None:
-                g2, sig = t, Q2
-                if g2 == m:
-                    return sig
-        # Q3: generator resumed by return(), a finally block entered for that return completes by a throw
-        if case.mode == 'G' and ret_then_finally_throw(case.prog):
-            f = Case(split_try(case.prog), 'F', case.fatal, case.deco)
-            gf = self.goja_b([f])[0]
-            mf = self.model_lines([f.bline()])[0]
-            if gf == mf and mf == m:
-                return Q3
-        # Q1: splitting catch+finally into two statements removes the disagreement
-        if has_cf(case.prog):
-            sp = Case(split_try(case.prog), case.mode, case.fatal, case.deco)
-            gs = self.goja_b([sp])[0]
-            if gs == m:
-                return Q1
-            if has(case.prog, 'fatal'):
-                t = trim_after_fatal(gs)
-                if t is not None and t == m:
-                    return Q1 + '+' + Q2
-        return None
+        return self.classify_many([(case, g, m)])[0]
+
+    def classify_many(self, items):
+        """goja/refSem disagreements [(case, goja, ref)]: explained by a known defect?  signature or None each.
+        All auxiliary runs (program rewritten so that one specific defect cannot fire) go through one batch."""
+        aux = []       # cases to run on goja
+        auxm = []      # cases whose reference result is needed
+        for (c, g, m) in items:
+            aux.append(Case(strip_dead(c.prog), c.mode, c.fatal, c.deco))
+            aux.append(Case(split_try(c.prog), c.mode, c.fatal, c.deco))
+            aux.append(Case(split_try(c.prog), 'F', c.fatal, c.deco))
+            aux.append(Case(split_try(strip_dead(c.prog)), c.mode, c.fatal, c.deco))
+            auxm.append(Case(split_try(c.prog), 'F', c.fatal, c.deco))
+        go = self.goja_b(aux) if aux else []
+        mo = self.model_lines([c.bline() for c in auxm]) if auxm else []
+        out = []
+        for k, (c, g, m) in enumerate(items):
+            g_sd, g_sp, g_f, g_sdsp = go[4 * k], go[4 * k + 1], go[4 * k + 2], go[4 * k + 3]
+            m_f = mo[k]
+            fat = has(c.prog, 'fatal')
+            sig = None
+            if c.mode == 'S' and value_only(g, m) and (has_do(c.prog) or nested_branch_in_finally(c.prog)):
+                # Q5: same log, both complete normally, only the script's completion VALUE differs, and the program
+                # has one of the two shapes for which goja does not reset the result register (see known finding)
+                sig = Q5
+            elif c.mode == 'S' and strip_dead(c.prog) != c.prog and g_sd == m:
+                # Q4 (root cause reported under C02): dead code after a branch statement is compiled in dummy mode and
+                # its break/continue patch locations land in REAL blocks (Go panic or overwritten instructions);
+                # the disagreement disappears when the never-executed statements are removed
+                sig = Q4
+            elif fat and trim_after_fatal(g) == m:
+                sig = Q2                      # return() calls after the fatal event
+            elif has_cf(c.prog) and g_sp == m:
+                sig = Q1                      # splitting catch+finally into two statements removes the disagreement
+            elif has_cf(c.prog) and fat and trim_after_fatal(g_sp) == m:
+                sig = Q1 + '+' + Q2
+            elif c.mode == 'S' and has_cf(c.prog) and strip_dead(c.prog) != c.prog and g_sdsp == m:
+                sig = Q4 + '+' + Q1
+            elif c.mode == 'S' and has_cf(c.prog) and value_only(g_sp, m) and (has_do(c.prog) or nested_branch_in_finally(c.prog)):
+                sig = Q1 + '+' + Q5
+            elif c.mode == 'G' and ret_then_finally_throw(c.prog) and m_f == m and (g_f == m_f or (fat and trim_after_fatal(g_f) == m_f)):
+                # Q3: generator resumed by return(); a finally block entered for that return completes by a throw;
+                # the plain-function version of the program agrees with the reference semantics
+                sig = Q3
+            out.append(sig)
+        return out
 
     # ---- one batch of cases
     def batch(self, cases, do_kvw=True):
@@ -566,6 +586,7 @@ class Checker:
                     gout[i] = o2[0]
         mout = self.model_lines(ml)
         have_model = bool(mout) and mout[0] != 'NO-MODEL'
+        mism = []
         for i, c in enumerate(cases):
             gparts = gout[i].split(' ## ')
             mparts = mout[i].split(' ## ')
@@ -601,21 +622,24 @@ class Checker:
             for e in evs:
                 self.ev_hist[e[0]] = self.ev_hist.get(e[0], 0) + 1
             if g != m:
-                sig = self.classify(c, g, m)
+                mism.append((c, g, m))
+            elif len(ctx.samples) < 8 and (nfin >= 2 or nclose >= 1) and i % 97 == 0:
+                ctx.sample({'mode': c.mode, 'prog': toks(c.prog), 'js': jss[i], 'result': g})
+        if mism:
+            for (c, g, m), sig in zip(mism, self.classify_many(mism)):
                 if sig is None:
                     self.bad['B'].append((c, g, m))
                 else:
                     for q in sig.split('+'):
                         self.known[q] = self.known.get(q, 0) + 1
-                        self.known_example.setdefault(q, (c, g, m))
-            elif len(ctx.samples) < 8 and (nfin >= 2 or nclose >= 1) and i % 97 == 0:
-                ctx.sample({'mode': c.mode, 'prog': toks(c.prog), 'js': jss[i], 'result': g})
+                        if q not in self.known_example or size(c.prog) < size(self.known_example[q][0].prog):
+                            self.known_example[q] = (c, g, m)
 
     # ---- shrinking a behavioural disagreement
     def still_fails(self, case):
         g = self.goja_b([case])[0]
         m = self.model_lines([case.bline()])[0]
-        if g.startswith('E:') or g.startswith('TIMEOUT') or m in ('PARSE-ERROR', 'NO-MODEL'):
+        if g.startswith('E:') or g.startswith('TIMEOUT') or 'SyntaxError' in g or m in ('PARSE-ERROR', 'NO-MODEL'):
             return None
         if g != m and self.classify(case, g, m) is None:
             return (g, m)
@@ -641,6 +665,56 @@ class Checker:
                     best, res, improved = c2, r2, True
                     break
         return best, res
+
+
+def value_only(g, m):
+    cg, _, lg = g.partition(' | ')
+    cm, _, lm = m.partition(' | ')
+    return lg == lm and cg.startswith('N:') and cm.startswith('N:') and cg != cm
+
+
+def has_do(s):
+    if s[0] == 'loop' and s[1] == 'd':
+        return True
+    return any(has_do(c) for c in children(s))
+
+
+def nested_branch_in_finally(s):
+    """a finally block that contains a break/continue below its top-level statement list"""
+    if s[0] == 'try' and s[5]:
+        items = []
+        def fl(x):
+            if x[0] == 'seq':
+                fl(x[1]); fl(x[2])
+            else:
+                items.append(x)
+        fl(s[6])
+        if any(it[0] not in ('brk', 'cont') and (has(it, 'brk') or has(it, 'cont')) for it in items):
+            return True
+    return any(nested_branch_in_finally(c) for c in children(s))
+
+
+def strip_dead(s):
+    """drop the statements that follow a break/continue in the same statement list (never executed)"""
+    if not isinstance(s, tuple):
+        return s
+    if s[0] == 'seq':
+        items, out = [], []
+        def fl(x):
+            if x[0] == 'seq':
+                fl(x[1]); fl(x[2])
+            else:
+                items.append(x)
+        fl(s)
+        for it in items:
+            out.append(strip_dead(it))
+            if it[0] in ('brk', 'cont'):
+                break
+        r = out[-1]
+        for it in reversed(out[:-1]):
+            r = ('seq', it, r)
+        return r
+    return tuple(strip_dead(x) for x in s)
 
 
 def ret_then_finally_throw(s):
@@ -754,8 +828,8 @@ def report(ctx, ck):
                           {'kind': 'program', 'mode': c.mode, 'fatal': c.fatal, 'deco': c.deco, 'prog': c.prog, 'js': c.js(), 'expected': m, 'observed': g})
     # unexplained behavioural disagreements: shrink, report each distinct minimised program
     seen = set()
-    for (c, g, m) in ck.bad['B'][:6]:
-        small, res = ck.shrink(c)
+    for (c, g, m) in sorted(ck.bad['B'], key=lambda x: size(x[0].prog))[:3]:
+        small, res = ck.shrink(c, budget=40)
         if res is None:
             res = (g, m)
         key = small.key()
